@@ -31,6 +31,11 @@ def depthList : List Atom → Nat
   | a :: r => max a.depth (depthList r)
 end
 
+/-- file offset of the first child of the innermost frame -/
+def innerBase : Nat → List Frame → Nat
+  | base, [] => base
+  | base, fr :: r => innerBase (base + sizeList fr.pre + hdrLen fr.wide + fr.skip.length) r
+
 /-! ### well-formed files with tags: the layout -/
 
 mutual
@@ -167,5 +172,152 @@ def exLayout0 : Layout :=
       { name := nMeta, wide := false, skip := [0, 0, 0, 0], pre := [.leaf nHdlr false (zeros 25)], post := [] }] }
 
 def exItems : List Atom := [.leaf [0xa9, 0x6e, 0x61, 0x6d] false [9, 9, 9, 9, 9, 9, 9, 9, 9, 9, 9, 9]]
+
+/-! ### the offset tables of the saved file, patched on the tree -/
+
+mutual
+/-- the leaf atom that starts at file offset `P` (the tree starts at `pos`): its header form and payload -/
+def Atom.leafAt (P pos : Nat) : Atom → Option (Bool × Bytes)
+  | .leaf _ w p => if pos = P then some (w, p) else none
+  | .node _ w s cs => leafAtList P (pos + hdrLen w + s.length) cs
+def leafAtList (P pos : Nat) : List Atom → Option (Bool × Bytes)
+  | [] => none
+  | a :: r => if P < pos + a.size then a.leafAt P pos else leafAtList P (pos + a.size) r
+end
+
+mutual
+/-- the tree with `f` applied to the payload of the leaf atom that starts at file offset `P` -/
+def Atom.patchAt (P : Nat) (f : Bytes → Bytes) (pos : Nat) : Atom → Atom
+  | .leaf n w p => if pos = P then .leaf n w (f p) else .leaf n w p
+  | .node n w s cs => .node n w s (patchAtList P f (pos + hdrLen w + s.length) cs)
+def patchAtList (P : Nat) (f : Bytes → Bytes) (pos : Nat) : List Atom → List Atom
+  | [] => []
+  | a :: r => if P < pos + a.size then a.patchAt P f pos :: r else a :: patchAtList P f (pos + a.size) r
+end
+
+/-- `__update_offset_table` / `__update_tfhd` on the payload of a table atom alone (the atom's own bookkeeping code,
+with the payload at offset 0): the patched payload as a value -/
+def payloadStep (w : Nat) (delta : Int) (offset : Nat) (p : Bytes) : Except PyErr Bytes :=
+  if w = 0 then updateTfhd p 0 0 p.length delta offset else updateOffsetTable p 0 w 0 p.length delta offset
+
+def payloadPatch (w : Nat) (delta : Int) (offset : Nat) (p : Bytes) : Bytes :=
+  match payloadStep w delta offset p with
+  | .ok p' => p'
+  | .error _ => p
+
+/-- the table atom `t` (as the parser saw it in the old file) is, at the offset `__update_offsets` looks for it, a leaf
+of the tree `T` with the header length and extent the parser recorded, and patching its payload succeeds: the count
+fits the payload and every patched entry fits its field -/
+def TableOK (delta : Int) (offset : Nat) (t : Nat × PAtom) (T : List Atom) : Prop :=
+  match leafAtList (shifted t.2 delta offset) 0 T with
+  | some (w, p) => hdrLen w = hdrOf t.2 ∧ t.2.length = hdrLen w + p.length ∧ (payloadStep t.1 delta offset p).toOption.isSome
+  | none => False
+
+instance (delta : Int) (offset : Nat) (t : Nat × PAtom) (T : List Atom) : Decidable (TableOK delta offset t T) := by
+  unfold TableOK; split <;> infer_instance
+
+/-- the tables one after the other, each on the tree the earlier ones left -/
+def TablesOK (delta : Int) (offset : Nat) : List (Nat × PAtom) → List Atom → Prop
+  | [], _ => True
+  | t :: r, T => TableOK delta offset t T ∧
+      TablesOK delta offset r (patchAtList (shifted t.2 delta offset) (payloadPatch t.1 delta offset) 0 T)
+
+instance (delta : Int) (offset : Nat) : (ts : List (Nat × PAtom)) → (T : List Atom) → Decidable (TablesOK delta offset ts T)
+  | [], _ => isTrue trivial
+  | t :: r, T =>
+    have := instDecidableTablesOK delta offset r (patchAtList (shifted t.2 delta offset) (payloadPatch t.1 delta offset) 0 T)
+    by unfold TablesOK; exact inferInstance
+
+def patchTables (delta : Int) (offset : Nat) : List (Nat × PAtom) → List Atom → List Atom
+  | [], T => T
+  | t :: r, T => patchTables delta offset r (patchAtList (shifted t.2 delta offset) (payloadPatch t.1 delta offset) 0 T)
+
+/-- the table atoms `__update_offsets` visits for this save (none when the size does not change) -/
+def Layout.visitedTables (L : Layout) (items : List Atom) (pad : PadChoice) : List (Nat × PAtom) :=
+  if L.delta items pad = 0 then [] else visitedIn (annotList 0 L.top) (holeOffset 0 L.frames L.hole) (sizeList L.mid)
+
+/-- the atoms of the file after a save: the saved layout with the payload of every visited `stco` / `co64` / `tfhd`
+atom patched (entries behind the region start + delta) -/
+def Layout.savedPatched (L : Layout) (items : List Atom) (pad : PadChoice) : List Atom :=
+  patchTables (L.delta items pad) (holeOffset 0 L.frames L.hole) (L.visitedTables items pad) (L.saved items pad).top
+
+/-- every visited table atom can be patched -/
+def Layout.TablesOK (L : Layout) (items : List Atom) (pad : PadChoice) : Prop :=
+  Mp4C.TablesOK (L.delta items pad) (holeOffset 0 L.frames L.hole) (L.visitedTables items pad) (L.saved items pad).top
+
+instance (L : Layout) (items : List Atom) (pad : PadChoice) : Decidable (L.TablesOK items pad) := by
+  unfold Layout.TablesOK; infer_instance
+
+/-! ### files without tags: `__save_new` -/
+
+/-- a file whose `moov` has no `udta` (`frames = [moov]`) or whose `moov.udta` has no `meta.ilst` below it
+(`frames = [moov, udta]`); `kids` = all children of the innermost frame.  The new atoms go in front of them. -/
+structure NewLayout where
+  frames : List Frame
+  kids : List Atom
+
+def NewLayout.hole (N : NewLayout) : Hole := ⟨[], N.kids⟩
+def NewLayout.top (N : NewLayout) : List Atom := fill N.frames N.hole []
+def NewLayout.render (N : NewLayout) : Bytes := renderList N.top
+
+/-- the insertion point: `path[-1]._dataoffset` -/
+def NewLayout.offset (N : NewLayout) : Nat := holeOffset 0 N.frames N.hole
+
+/-- well-formed, nesting the reader accepts, and either `moov` (the first one) has no `udta` child, or it has one (the
+first one is the frame) below which the path `meta.ilst` does not exist (no `meta`, or a first `meta` without `ilst`) -/
+def NewLayout.OK (N : NewLayout) : Prop :=
+  wfList N.top ∧ depthList N.top ≤ 65 ∧
+    ((framesNamed N.frames [nMoov] ∧ noName N.kids nUdta) ∨
+     (framesNamed N.frames [nMoov, nUdta] ∧ (path? (annotList (innerBase 0 N.frames) N.kids) [nMeta, nIlst]).isSome = false))
+
+instance (N : NewLayout) : Decidable N.OK := by unfold NewLayout.OK; infer_instance
+
+def hdlrLeaf : Atom := .leaf nHdlr false (zeros 8 ++ [0x6d, 0x64, 0x69, 0x72, 0x61, 0x70, 0x70, 0x6c] ++ zeros 9)
+
+/-- the padding `__save_new` ends up with: the callback is offered `−len(meta_data)` (`meta_data` = the 4 version/flags
+bytes, the `hdlr` atom and the `ilst` atom) and the number of bytes behind the insertion point -/
+def NewLayout.newPadding (N : NewLayout) (items : List Atom) (pad : PadChoice) : Nat :=
+  (min 0xFFFFFFFF (getPadding pad (-(((zeros 4 ++ hdlrAtom ++ ilstData items).length : Nat) : Int))
+    (N.render.length - N.offset))).toNat
+
+/-- the new `meta` atom: version/flags 0, `hdlr` ("mdir"/"appl"), the `ilst`, a `free` atom with the padding -/
+def newMeta (items : List Atom) (padding : Nat) : Atom :=
+  .node nMeta false (zeros 4) [hdlrLeaf, .node nIlst false [] items,
+    .leaf nFree (decide (padding + 8 > 0xFFFFFFFF)) (zeros padding)]
+
+/-- what is inserted: the new `meta`, inside a new `udta` when `moov` has none -/
+def NewLayout.newAtoms (N : NewLayout) (items : List Atom) (pad : PadChoice) : List Atom :=
+  if N.frames.length = 2 then [newMeta items (N.newPadding items pad)]
+  else [.node nUdta false [] [newMeta items (N.newPadding items pad)]]
+
+/-- the atoms of the file after `__save_new`, before the table steps -/
+def NewLayout.saved (N : NewLayout) (items : List Atom) (pad : PadChoice) : List Atom :=
+  fill N.frames N.hole (N.newAtoms items pad)
+
+def NewLayout.delta (N : NewLayout) (items : List Atom) (pad : PadChoice) : Int := sizeList (N.newAtoms items pad)
+
+def NewLayout.visitedTables (N : NewLayout) (items : List Atom) (pad : PadChoice) : List (Nat × PAtom) :=
+  if N.delta items pad = 0 then [] else visitedIn (annotList 0 N.top) N.offset 0
+
+def NewLayout.TablesOK (N : NewLayout) (items : List Atom) (pad : PadChoice) : Prop :=
+  Mp4C.TablesOK (N.delta items pad) N.offset (N.visitedTables items pad) (N.saved items pad)
+
+instance (N : NewLayout) (items : List Atom) (pad : PadChoice) : Decidable (N.TablesOK items pad) := by
+  unfold NewLayout.TablesOK; infer_instance
+
+def NewLayout.savedPatched (N : NewLayout) (items : List Atom) (pad : PadChoice) : List Atom :=
+  patchTables (N.delta items pad) N.offset (N.visitedTables items pad) (N.saved items pad)
+
+/-- `ftyp  moov(trak(…stco [entry]))  mdat "AAAA"`: no `udta` -/
+def exNew1 : NewLayout :=
+  { frames := [{ name := nMoov, wide := false, skip := [], pre := [.leaf [0x66, 0x74, 0x79, 0x70] false [1, 2, 3, 4]],
+                 post := [.leaf nMdat false [0x41, 0x41, 0x41, 0x41]] }],
+    kids := [.node nTrak false [] [.node nMdia false [] [.node nMinf false [] [.node nStbl false [] [exStco 76]]]]] }
+
+/-- `moov(udta(meta(hdlr)))  mdat`: `udta` and a `meta` without `ilst` -/
+def exNew2 : NewLayout :=
+  { frames := [{ name := nMoov, wide := false, skip := [], pre := [], post := [.leaf nMdat false [0x41, 0x41, 0x41, 0x41]] },
+               { name := nUdta, wide := false, skip := [], pre := [], post := [] }],
+    kids := [.node nMeta false (zeros 4) [.leaf nHdlr false (zeros 25)]] }
 
 end Mutagen.Mp4C
